@@ -53,7 +53,7 @@ ASSUMPTIONS = [
     'argument names of llf2ecef/ecef2llf are swapped w.r.t. ecef2enuv (first argument acts as longitude); the statement '
     'only demands transposes/orthogonality, so this is recorded as a note, not judged',
 ]
-REQUIRED_CLASSES = ['geo:pole', 'geo:near-pole', 'geo:equator', 'geo:near-equator', 'geo:mid', 'geo:seam180', 'geo:axis',
+REQUIRED_CLASSES = ['array-arguments', 'geo:pole', 'geo:near-pole', 'geo:equator', 'geo:near-equator', 'geo:mid', 'geo:seam180', 'geo:axis',
                     'enu:origin-pole', 'enu:origin-equator', 'enu:origin-mid', 'enu:zero-offset', 'enu:offset', 'iso:pair',
                     'aer:zero', 'aer:zenith', 'aer:horizontal', 'aer:generic', 'aer:angles', 'dca:deg', 'dca:rad',
                     'ned:vector', 'ned:array', 'llf:grid']
@@ -591,6 +591,91 @@ def job_llf(ctx):
     ctx.sample({'llf_angles': [A[1], A[3]], 'grid': [len(A), len(A)]})
 
 
+
+# ------------------------------------------------------------------------------------------------ (g) array arguments
+def job_array_args(ctx):
+    """The conversions called with ARRAYS for their scalar parameters (one value per point, as the element-wise formulas allow): where a
+    function answers, column j is what the scalar call gives for the j-th values, the caller's arrays are left as they were, and the same
+    array objects handed to the inverse function give the round trip."""
+    F = _F()
+    n = 7
+    E = np.array([3.0, -4.0, 5.0, 1e3, -2e5, 0.5, 0.0]); N = np.array([-1.0, 2.5, 7.0, -3e3, 1e5, 0.25, 10.0]); U = np.array([0.5, 9.0, -2.0, 50.0, 3e4, -0.125, 0.0])
+    ANG = np.array([10.0, 45.0, 90.0, 135.0, 200.0, 300.0, -30.0])
+    LAT = np.array([48.0, -33.5, 0.0, 89.0, -89.5, 10.0, 60.0]); LON = np.array([11.0, 151.25, -70.0, 180.0, -180.0, 0.0, -120.0]); H = np.array([0.0, 100.0, -50.0, 1e4, 5e5, 1.0, 8848.0])
+
+    def run_case(name, fn, arrs, scalar_fn, inverse=None, inv_map=None, deg_kw=None):
+        saved = [a.copy() for a in arrs]
+        key = f'{name} with {len(arrs)} array arguments of {n} values'
+        ctx.evals += 1
+        try:
+            out = np.asarray(fn(*arrs), float)
+        except Exception:
+            ctx.outcome(('array-args-refused', name))
+            for a, s0 in zip(arrs, saved):
+                a[...] = s0
+            return
+        unchanged = all(np.array_equal(a, s0) for a, s0 in zip(arrs, saved))
+        ctx.expect(unchanged, f"{name}: the caller's argument arrays are left as they were", key, [a.tolist() for a in arrs][-1], saved[-1].tolist())
+        for a, s0 in zip(arrs, saved):
+            a[...] = s0
+        if out.ndim == 2 and out.shape[1] == n:
+            for j in range(n):
+                ref = np.asarray(scalar_fn(*[float(s0[j]) for s0 in saved]), float)
+                sc = max(1.0, float(np.abs(ref).max()))
+                ctx.close(out[:, j] / sc, ref / sc, TOL_REL, f'{name}: column j of the array call = the scalar call on the j-th values', f'{key} j={j}')
+        if inverse is not None and out.ndim == 2 and out.shape[1] == n:
+            iname, ifn = inverse
+            try:
+                back = np.asarray(ifn(*inv_map(out, arrs)), float)
+                unchanged = all(np.array_equal(a, s0) for a, s0 in zip(arrs, saved))
+                ctx.expect(unchanged, f"{iname}: the caller's argument arrays are left as they were", key, [a.tolist() for a in arrs][-1], saved[-1].tolist())
+                for a, s0 in zip(arrs, saved):
+                    a[...] = s0
+                if back.ndim == 2 and back.shape[1] == n:
+                    exp = np.array([saved[0], saved[1], saved[2]])
+                    sc = max(1.0, float(np.abs(exp).max()))
+                    ctx.close(back / sc, exp / sc, 1e-9, f'{name} -> {iname} with the same array objects: round trip', key)
+            except Exception:
+                ctx.outcome(('array-args-refused', iname))
+        ctx.cls('array-arguments')
+        ctx.seen(('array-args', name))
+
+    for deg in (True, False):
+        ang = ANG.copy() if deg else np.radians(ANG)
+        run_case(f'enu2dca(deg={deg})', lambda e, nn, u, a: F.enu2dca(e, nn, u, a, deg), [E.copy(), N.copy(), U.copy(), ang],
+                 lambda e, nn, u, a: F.enu2dca(e, nn, u, a, deg), inverse=(f'dca2enu(deg={deg})', lambda d, c, a_, t: F.dca2enu(d, c, a_, t, deg)),
+                 inv_map=lambda out, arrs: (out[0].copy(), out[1].copy(), out[2].copy(), arrs[3]))
+        run_case(f'dca2enu(deg={deg})', lambda e, nn, u, a: F.dca2enu(e, nn, u, a, deg), [E.copy(), N.copy(), U.copy(), ang.copy()],
+                 lambda e, nn, u, a: F.dca2enu(e, nn, u, a, deg), inverse=(f'enu2dca(deg={deg})', lambda d, c, a_, t: F.enu2dca(d, c, a_, t, deg)),
+                 inv_map=lambda out, arrs: (out[0].copy(), out[1].copy(), out[2].copy(), arrs[3]))
+        run_case(f'enu2aer(deg={deg})', lambda e, nn, u: F.enu2aer(e, nn, u, deg), [E[:6].copy().repeat(1), N[:6].copy(), U[:6].copy()][:3] if False else [E.copy(), N.copy(), U.copy()],
+                 lambda e, nn, u: F.enu2aer(e, nn, u, deg), inverse=(f'aer2enu(deg={deg})', lambda az, el, r: F.aer2enu(az, el, r, deg)),
+                 inv_map=lambda out, arrs: (out[0].copy(), out[1].copy(), out[2].copy()))
+    run_case('geodetic2ecef', lambda la, lo, h: F.geodetic2ecef(la, lo, h), [LAT.copy(), LON.copy(), H.copy()], lambda la, lo, h: F.geodetic2ecef(la, lo, h))
+    X = np.array([np.asarray(F.geodetic2ecef(float(a), float(b), float(c)), float) for a, b, c in zip(LAT, LON, H)]).T
+    run_case('ecef2geodetic', lambda x, y, z: F.ecef2geodetic(x, y, z), [X[0].copy(), X[1].copy(), X[2].copy()], lambda x, y, z: F.ecef2geodetic(x, y, z))
+    run_case('ecef2enu', lambda x, y, z: F.ecef2enu(x, y, z, 48.0, 11.0, 500.0), [X[0].copy(), X[1].copy(), X[2].copy()], lambda x, y, z: F.ecef2enu(x, y, z, 48.0, 11.0, 500.0))
+    run_case('enu2ecef', lambda e, nn, u: F.enu2ecef(e, nn, u, 48.0, 11.0, 500.0), [E.copy(), N.copy(), U.copy()], lambda e, nn, u: F.enu2ecef(e, nn, u, 48.0, 11.0, 500.0))
+    # ned2enu / enu2ned take the vector(s) as one array: N-by-3 rows and a single 3-vector, argument left as it was
+    V = np.array([E, N, U]).T.copy()
+    for name, fn in (('ned2enu', F.ned2enu), ('enu2ned', F.enu2ned)):
+        V0 = V.copy()
+        try:
+            out = np.asarray(fn(V), float)
+            ctx.expect(np.array_equal(V, V0), f"{name}: the caller's array is left as it was", 'N-by-3 rows', V[0].tolist(), V0[0].tolist())
+            exp = np.c_[V0[:, 1], V0[:, 0], -V0[:, 2]]
+            if out.shape == exp.shape:
+                ctx.close(out, exp, 0.0, f'{name}(N-by-3 rows) = rows with the first two axes swapped and the third negated', 'N-by-3 rows')
+            v1 = V0[3].copy()
+            o1 = np.asarray(fn(v1), float)
+            ctx.close(o1, [V0[3, 1], V0[3, 0], -V0[3, 2]], 0.0, f'{name}(3-vector) = first two axes swapped, third negated', '3-vector')
+            ctx.expect(np.array_equal(v1, V0[3]), f"{name}: the caller's vector is left as it was", '3-vector', v1.tolist(), V0[3].tolist())
+        except Exception as ex:
+            ctx.fail(f'{name}: raises on an N-by-3 array', 'N-by-3 rows', f'{type(ex).__name__}: {ex}'[:120], 'rows')
+        V[...] = V0
+    ctx.sample({'array_arguments': {'east': E.tolist(), 'angle_deg': ANG.tolist()}})
+
+
 # ------------------------------------------------------------------------------------------------ driver
 def run(ctx):
     rf.selftest()
@@ -609,6 +694,7 @@ def run(ctx):
     jobs.append(('job_ned', ()))
     jobs.append(('job_ellipsoids', ()))
     jobs.append(('job_llf', ()))
+    jobs.append(('job_array_args', ()))
     # longest jobs first is irrelevant for determinism (results are merged in job order)
     core.run_jobs(ctx, __name__, jobs)
     ctx.notes['grid_sizes'] = {'geodetic': [len(geo_lats(ctx)), len(geo_lons(ctx)), len(geo_hs(ctx))],
